@@ -20,6 +20,10 @@
 //     variable, unparsable URL, non-integer timeout, WithEndpointURL with an
 //     unparsable URL - the latter documented: "If an invalid URL is provided,
 //     the default value will be kept"): next source;
+//   - set but blank (" ", "\t", "  \t "): skipped like an empty variable by
+//     the otlptrace* / otlpmetric* exporters for every setting and by the
+//     otlplog* exporters for headers, compression and timeout (blankIgnored
+//     quotes the readers): next source;
 //   - invalid, of any other kind (unknown compression name, malformed header
 //     list, padded value, negative timeout, out-of-range option value, ...):
 //     the exporters differ (ignore vs shadow) and document nothing, so NOTHING
@@ -173,7 +177,10 @@ var badEnvEndpoint = []bad{
 	{"garbage", "abc", false},
 	{"garbage", "/only/a/path", false},
 	{"garbage", "http//{X}", false},
-	{"blank", "   ", false},
+	// set but blank (see blankIgnored)
+	{"blank", " ", false},
+	{"blank", "\t", false},
+	{"blank", "  \t ", false},
 }
 
 var badOptEndpoint = []bad{
@@ -197,7 +204,9 @@ var badEnvHeaders = []bad{
 	{"empty_key", "=v", false},
 	{"bad_escape", "x-verif-src=%zz", false},
 	{"partial", "x-verif-src={H},broken", false},
-	{"blank", "  ", false},
+	{"blank", " ", false},
+	{"blank", "\t", false},
+	{"blank", "  \t ", false},
 }
 
 var badOptHeaders = []bad{
@@ -213,6 +222,9 @@ var badEnvCompression = []bad{
 	{"case", "GZIP", false},
 	{"padded", " gzip ", false},
 	{"list", "gzip,deflate", false},
+	{"blank", " ", false},
+	{"blank", "\t", false},
+	{"blank", "  \t ", false},
 }
 
 var badOptCompression = []bad{ // HTTP: Compression(n); gRPC: WithCompressor(text)
@@ -237,6 +249,9 @@ var badEnvTimeout = []bad{
 	{"padded", " 60000 ", false},
 	{"negative", "-1", false},
 	{"zero", "0", false},
+	{"blank", " ", false},
+	{"blank", "\t", false},
+	{"blank", "  \t ", false},
 }
 
 var badOptTimeout = []bad{ // WithTimeout(text ms)
@@ -280,6 +295,37 @@ func badTable(exp, setting string, src int) []bad {
 		return badEnvTimeout
 	}
 	panic("harness bug: setting " + setting)
+}
+
+// blankIgnored: is a variable that is set but consists of white space only
+// treated as if it were not set (the next source decides)? From the pinned
+// readers, one per exporter family:
+//
+//   - otlptrace*, otlpmetric* (four generated copies of internal/envconfig):
+//     GetEnvValue trims the value and reports "v != \"\"" - blank is absent,
+//     for every setting.
+//   - otlplog* (config.go getenv / getEnv): the raw value is tested against ""
+//     and handed to the converter; a converter error sends the lookup on to the
+//     next variable. convHeaders (no '='), convCompression (unknown name) and
+//     convDuration (not an integer) reject a blank value, so blank is skipped
+//     for headers, compression and timeout. url.Parse accepts a blank string,
+//     so a blank ENDPOINT is NOT skipped there (otlploghttp: constructor
+//     error, otlploggrpc: empty target): recorded in obs/..., not asserted.
+func blankIgnored(exp, setting string) bool {
+	if signalOf(exp) != "LOGS" {
+		return true
+	}
+	return setting == "headers" || setting == "compression" || setting == "timeout"
+}
+
+// ignoredAt: the invalid value of source i is skipped by the exporter of the
+// case (asserted: the walk goes on to the next source).
+func (c Case) ignoredAt(i int) bool {
+	b := c.badOf(i)
+	if b.ignored {
+		return true
+	}
+	return i > 0 && b.kind == "blank" && blankIgnored(c.Exporter, c.Setting)
 }
 
 func (c Case) badOf(i int) bad {
@@ -375,7 +421,7 @@ func genOTLP(t *rapid.T) Case {
 			seenValid = true
 		}
 		tbl := badTable(c.Exporter, c.Setting, i)
-		s.Bad = rapid.IntRange(0, len(tbl)-1).Draw(t, "bad")
+		s.Bad = uniform(t, len(tbl), "bad") // every spelling equally often
 		if s.State == invalid {
 			s.BadKind = tbl[s.Bad].kind
 		}
@@ -419,7 +465,7 @@ func walk(c Case) verdict {
 			v.winner = i
 			return v
 		case invalid:
-			if c.badOf(i).ignored {
+			if c.ignoredAt(i) {
 				continue
 			}
 			v.winner = -1
@@ -496,7 +542,7 @@ func lowerSrc(c Case) int {
 		case valid:
 			return i
 		default:
-			if c.badOf(i).ignored {
+			if c.ignoredAt(i) {
 				continue
 			}
 			return -1
@@ -1037,7 +1083,7 @@ func runOTLP(c Case) (vs []vk.Violation, info vk.Info) {
 		// the source the walk stopped at
 		first := -1
 		for i, s := range srcs {
-			if s.State == invalid && !c.badOf(i).ignored {
+			if s.State == invalid && !c.ignoredAt(i) {
 				first = i
 				break
 			}
